@@ -151,6 +151,16 @@ func (h *harness) evalGroups(groups []*Group, random int, report bool) map[*Grou
 			lines = h.registerStrings(lines, *g.v)
 		}
 		s := slot{p: p}
+		if g.Site == "poly" {
+			for i := range p.cases {
+				for _, l := range polyLines(&p.cases[i]) {
+					s.lines = append(s.lines, len(lines))
+					lines = append(lines, l)
+				}
+			}
+			slots[gi] = s
+			continue
+		}
 		for i := range p.cases {
 			s.lines = append(s.lines, len(lines))
 			lines = append(lines, p.cases[i].modelLine())
@@ -183,7 +193,12 @@ func (h *harness) evalGroups(groups []*Group, random int, report bool) map[*Grou
 				rs = append(rs, replies[li])
 			}
 		}
-		fs := h.judge(s.p, rs)
+		var fs []failure
+		if g.Site == "poly" {
+			fs = h.judgePoly(s.p, rs)
+		} else {
+			fs = h.judge(s.p, rs)
+		}
 		if len(fs) > 0 {
 			out[g] = fs
 			if report {
@@ -785,6 +800,43 @@ func (h *harness) randomComposite(n int, maxDepth int) {
 	h.evalGroups(groups, 4, true)
 }
 
+// polymorphic: one field node against two concrete types with their own argument defaults.
+func (h *harness) polymorphic(n int) {
+	run := h.run
+	var groups []*Group
+	for i := 0; i < n; i++ {
+		r := run.Rand.Fork()
+		tg := &typeGen{r: r}
+		var t *Ty
+		if r.Chance(1, 3) {
+			t = hx.Pick(r, wrapForms(scalarTy(hx.Pick(r, scalarNames))))
+		} else {
+			t = tg.gen(r.Range(0, 3))
+		}
+		dflt := func() *hx.Sexp {
+			if r.Chance(1, 3) {
+				return nil
+			}
+			return tg.dflt(t)
+		}
+		var v *hx.Sexp
+		if !r.Chance(1, 3) {
+			vg := &valueGen{r: r}
+			if r.Chance(1, 3) {
+				vg.junk = r.Range(3, 15)
+			}
+			x := vg.valid(t, false, false)
+			v = &x
+		}
+		groups = append(groups, newPolyGroup(t, dflt(), dflt(), dflt(), v, hx.Pick(r, []string{"interface-list", "union-fragment"})))
+		if len(groups) >= 200 {
+			h.evalGroups(groups, 2, true)
+			groups = nil
+		}
+	}
+	h.evalGroups(groups, 2, true)
+}
+
 func loadGroup(path string) (*Group, error) {
 	var g Group
 	if err := hx.LoadReplayCase(path, &g); err != nil {
@@ -841,6 +893,7 @@ func main() {
 	h.exhaustive()
 	run.Note("exhaustive part: 7 scalars + 2 enums × wrapper forms × every boundary value (in 2–5 list shapes) × the deterministic spellings; @skip/@include × 8 values")
 	h.randomComposite(run.Scale(4000, 150000), run.Scale(4, 6))
+	h.polymorphic(run.Scale(700, 20000))
 
 	h.finish()
 }
